@@ -207,6 +207,9 @@ func RegisterReset(f func()) { resets = append(resets, f) }
 var mu sync.Mutex
 
 func record(kind, data string, n int64) {
+	if dead && kind != "PANIC" {
+		return // the run is over; tasks that are being ended leave no trace
+	}
 	mu.Lock()
 	events = append(events, Event{Seq: len(events), Kind: kind, Data: data, N: n, T: simMs()})
 	mu.Unlock()
@@ -264,7 +267,7 @@ func Run(c Config, main func()) (res Result) {
 	// The program runs on its own goroutine so that Exit and the step budget can
 	// end it with runtime.Goexit, which a recover() in the code under test cannot
 	// swallow. The harness blocks until it is done: nothing runs concurrently.
-	done := make(chan struct{})
+	done := mainTask.exited
 	go func() {
 		defer close(done)
 		defer func() {
@@ -279,18 +282,9 @@ func Run(c Config, main func()) (res Result) {
 	}()
 	<-done
 	// the main task is gone: every other task of the program ends with it
-	endRunFrom(nil)
-	waited := make(chan struct{})
-	go func() { taskWG.Wait(); close(waited) }()
-	select {
-	case <-waited:
-	case <-time.After(30 * time.Second):
-		// a goroutine of the program is blocked where the simulator cannot see it (an
-		// unmodelled primitive): this process can no longer be trusted to isolate runs
-		Tainted = "a goroutine started by the program did not end with the run (blocked outside the simulator's control)"
-		buf := make([]byte, 1<<16)
-		buf = buf[:runtime.Stack(buf, true)]
-		fmt.Fprintf(os.Stderr, "verifsimrt: goroutines at the end of the run:\n%s\n", buf)
+	endRunFrom(mainTask)
+	if Tainted == "" {
+		taskWG.Wait()
 	}
 	running = false
 	mu.Lock()
